@@ -22,7 +22,8 @@ SHARDS = {"quick": 1, "thorough": 16}
 @st.composite
 def cases(draw):
     c = draw(st.one_of(gen.program_cases(n_inputs=(3, 6), max_depth=3, tricky=True), gen.program_cases(n_inputs=(3, 6), max_depth=3),
-                       gen.program_cases(n_inputs=(3, 6), pool=gen.ADVERSARIAL_POOL, max_depth=2), gen.big_programs()))
+                       gen.program_cases(n_inputs=(3, 6), pool=gen.ADVERSARIAL_POOL, max_depth=2),
+                       gen.program_cases(n_inputs=(3, 6), pool=gen.ADVERSARIAL_POOL[45:], max_depth=1, max_fields=3), gen.big_programs()))
     if draw(st.integers(0, 2)) == 0:
         # the source the user wrote: same tokens with generated whitespace / comments (CR, FF, // and /* */ included)
         c["text"] = draw(gen_text.trivia_variant(M.program_tokens(c["prog"])))[0]
@@ -100,6 +101,52 @@ def judge(case):
     return {"viol": viol[:5], "nontrivial": nt, "tags": tags, "key": text, "sample": {"text": text[:300]}}
 
 
+def child_entry(case):
+    """(runs in a child interpreter with another hash seed) the module texts for a program, both layouts"""
+    text = case.get("text") or M.render(case["prog"])
+    W = sut.wrappers()
+    return {"nested": W.generate_code(text, expose_internal_fn=False), "exposed": W.generate_code(text, expose_internal_fn=True)}
+
+
+def judge_foreign(case, texts, where):
+    """module text generated in ANOTHER interpreter process (build time) vs the evaluator built here (run time)"""
+    prog = case["prog"]
+    text = M.render(prog)
+    res = sut.compile_text(text)
+    if res[0] != "ok":
+        return ["does not compile: %s %s | %s" % (res[1], res[2], text)]
+    viol = []
+    for layout in ("nested", "exposed"):
+        ns = {}
+        try:
+            exec(compile(texts[layout], "<generated-elsewhere:%s>" % layout, "exec"), ns)
+            fn = ns[prog["name"]]
+        except Exception as e:
+            viol.append("text generated %s (%s layout) is not usable here: %s: %s | %s" % (where, layout, type(e).__name__, e, text))
+            continue
+        for k, enc in enumerate(case["inputs"]):
+            env = M.dec_inputs(enc)
+            a = _call(res[1], env, False, k)
+            b = _call(fn, env, False, k)
+            if not (a[0] == b[0] and (sut.same_value(a[1], b[1]) if a[0] == "group" else a[1] == b[1])):
+                viol.append("%s layout, text generated %s: generated function gave %r, the evaluator built in this process gave %r | "
+                            "inputs=%r | %s" % (layout, where, b, a, env, text))
+                break
+    return viol
+
+
+def foreign_cases():
+    R = lambda tag: M.ret([(M.lit_str("%s%d" % (tag, j)), "1") for j in range(16)])  # noqa: E731
+    out = []
+    for i, names in enumerate([["user_id", "country"], ["b", "a"], ["Zeta", "alpha", "Beta"], ["uid", "tenant", "region", "plan"],
+                               ["k9", "k10", "k1"], ["x", "y", "z", "w", "v"]]):
+        body = R("g") if i % 2 else M.if_([(M.cmp_(M.ident(names[0]), "!=", M.lit_str("nobody")), R("p"))], R("q"))
+        prog = M.program("exp%d" % i, body, salt=[None, "s", "é"][i % 3], splitters=names)
+        inputs = [M.enc_inputs({n: "%s-%d" % (n, j) for n in names}) for j in range(12)]
+        out.append({"prog": prog, "inputs": inputs})
+    return out
+
+
 def judge_case(record):
     return judge(record["case"])["viol"]
 
@@ -145,4 +192,19 @@ def run(ctx, rec):
         runner.direct_run(ctx, rec, "fixed-shapes", c07.fixed_programs(), judge, known_filter=known_filter)
         if rec.violations:
             return
+    if ctx.shard == 0:
+        # build-time / run-time split: the text is generated in child interpreters with other hash seeds, executed here
+        fc = foreign_cases()
+        for seed_ in ("1", "2", "3", "4"):
+            res = runner.child_judge("C14", fc, env_extra={"PYTHONHASHSEED": seed_})
+            for c, texts in zip(fc, res["results"]):
+                rec.evaluations += 1
+                rec.count("generated-in-another-process")
+                if isinstance(texts, list):
+                    rec.violation("generated-in-another-process", c, texts)
+                    return
+                v = judge_foreign(c, texts, "in a process with PYTHONHASHSEED=%s" % seed_)
+                if v:
+                    rec.violation("generated-in-another-process", c, v)
+                    return
     runner.hyp_run(ctx, rec, "programs-x-layouts", cases(), judge, ctx.n(250, 1500), known_filter=known_filter)
